@@ -147,6 +147,23 @@ fn check_inner(corpus: usize, cfg: usize, with_dict: bool) -> Option<String> {
     #[cfg(vaporetto_verif)]
     {
         let learned = vaporetto::VERIF_TAG_LEARNED.lock().unwrap().clone();
+        // the trainer's tag features are n-grams AROUND an occurrence of the token, named by their offset from the token's
+        // last character: every feature that got a weight must be one that some occurrence of the token in the corpus has
+        // (a feature filed under another offset is never seen by the tagger: the stored scores then miss its weight)
+        {
+            let mut possible: BTreeMap<String, std::collections::BTreeSet<String>> = BTreeMap::new();
+            for line in CORPORA[corpus].iter() {
+                let gold = Sentence::from_tokenized(line).unwrap();
+                for tok in gold.iter_tokens() {
+                    possible.entry(tok.surface().to_string()).or_default().extend(crate::trainref::tag_features(&gold, tok.start(), tok.end(), CONFIGS[cfg]));
+                }
+            }
+            for (t, _, f, w) in learned.iter() {
+                if f != "bias" && !possible.get(t).map_or(false, |set| set.contains(f)) {
+                    return Some(format!("the tag classifier of token {:?} learned weight {} for feature {:?}, which no occurrence of the token in the corpus has (n-gram and offset from the token's last character)", t, w, f));
+                }
+            }
+        }
         let (m2, _) = Model::read_slice(&bytes).ok()?;
         let mut p2 = Predictor::new(m2, true).ok()?;
         p2.store_tag_scores(true);
